@@ -280,7 +280,13 @@ func (db *DB) Write(batch *Batch, wo *opt.WriteOptions) error {
 			tr.Discard()
 			return err
 		}
-		return tr.Commit()
+		if err := tr.Commit(); err != nil {
+			// Release the transaction (and with it the write lock);
+			// nothing of the batch becomes visible.
+			tr.Discard()
+			return err
+		}
+		return nil
 	}
 
 	merge := !wo.GetNoWriteMerge() && !db.s.o.GetNoWriteMerge()
